@@ -84,6 +84,8 @@ def digit_component_dataset(rng):
 
 
 class WellFormed(Suite):
+    bench_rate = 0.1
+    scribbled_rate = 0.1     # share of the cases where the caller scribbled on what the read accessors returned (algos.scribble)
     seasoned_rate = 0.15     # share of the cases run on algorithm objects that have served before (algos.seasoned)
     name = "wellformed"
     imports = ["Parser", "DatasetModel", "Judge.JC16", "Judge.JC03"]
@@ -97,6 +99,18 @@ class WellFormed(Suite):
                           "one": rng.random() < 0.5})
         for _ in range(20 if tier == "quick" else 250):      # a member of a hard component never ranked with the others (ParCons sub-problems)
             cases.append({"s": rng.choice([gen.UNIFYING, gen.UNIFYING, gen.UNIFYING_HALF]), "D": isolated_member_dataset(rng), "one": rng.random() < 0.5})
+        for _ in range(25 if tier == "quick" else 300):
+            # a majority cycle (every rotation of an order, twice) and, listed FIRST, one ranking that runs against it: the element ids
+            # (order of first appearance) are then numbered backwards along the cycle
+            n = rng.randint(3, 4)
+            base = rng.sample(["a", "b", "c", "d", "e"] if rng.random() < 0.5 else [1, 2, 3, 4, 5], n)
+            rots = [base[i:] + base[:i] for i in range(n)]
+            body = [[[e] for e in rot] for rot in rots + rots]
+            rng.shuffle(body)
+            D = [[[e] for e in reversed(rots[rng.randrange(n)])]] + body
+            if rng.random() < 0.3:
+                D.append([[base[0]], [base[1]]])
+            cases.append({"s": rng.choice([gen.UNIFYING, gen.PSEUDO, gen.INDUCED, gen.UNIFYING_HALF, gen.GENERIC]), "D": D, "one": rng.random() < 0.5})
         for _ in range(40 if tier == "quick" else 500):
             D = named_dataset(rng, 5, 5) if rng.random() < 0.5 else gen.random_dataset(rng, 5, 6)
             cases.append({"s": nondyadic_scheme(rng), "D": D, "one": rng.random() < 0.5, "nondyadic": True})
@@ -115,7 +129,7 @@ class WellFormed(Suite):
                 alg = mkalg()
                 if case.get("seasoned"):
                     seasoned(alg, case["D"], case["s"])
-                cons = alg.compute_consensus_rankings(ds, sc, case["one"])
+                cons = alg.compute_consensus_rankings(ds, sc, case["one"], True) if case.get("bench") else alg.compute_consensus_rankings(ds, sc, case["one"])
                 out["runs"].append({"id": cid, "cons": [rsnap(r) for r in cons.consensus_rankings]})
             except Exception as e:
                 if type(e).__name__ in REFUSALS:
